@@ -415,6 +415,7 @@ SPECS["C19"] = dict(
     max_parallel=12,
     jobs=engine_jobs("c19", "./verifx/c19", [
         dict(id="control", run="^TestC19ControlAPI$", quick=dict(shards=8, checks=25, timeout=600, shrinktime=30), thorough=dict(shards=4, checks=2500, timeout=3400, shrinktime=300)),
+        dict(id="client", run="^TestC19Client$", quick=dict(shards=4, checks=12, timeout=600, shrinktime=30), thorough=dict(shards=6, checks=600, timeout=3400, shrinktime=300)),
     ]),
 )
 
